@@ -187,8 +187,14 @@ class Bar(object):
         return self.length - self.current_beat
 
     def value_left(self):
-        """Return the value left on the Bar."""
-        return 1.0 / self.space_left()
+        """Return the value left on the Bar: the value of a note that fills it."""
+        space = Fraction(self.length) - sum((_exact_length(x[1]) for x in self.bar), Fraction(0))
+        left = float(1 / space)
+        # place_notes counts exactly: a value that, as a float, reads a hair
+        # longer than the room there is would be refused
+        while space > 0 and _exact_length(left) > space:
+            left *= 1.0 + 1e-12
+        return left
 
     def augment(self):
         """Augment the NoteContainers in Bar."""
